@@ -16,6 +16,13 @@ with warnings.catch_warnings():
     warnings.simplefilter("ignore")
     import gaddlemaps
     from gaddlemaps import _cli
+from gaddlemaps.parsers import GroFile  # noqa: E402
+
+
+class Gro2File(GroFile):          # a coordinate format registered by the user's script, after the package was imported
+    EXTENSIONS = ("gro2",)
+
+
 assert os.path.realpath(gaddlemaps.__file__).startswith(os.path.realpath(repo) + os.sep), gaddlemaps.__file__
 
 with open(jobs_path) as f:
